@@ -53,5 +53,7 @@ func round12(c *Ctx, r *Report, p string) {
 	case "C06":
 		directiveArgsNotKeywords(c, r, "C06.R2.directive-args-not-keywords")
 		digitShortcutTestsWhatItPrints(c, r, "C06.R5.digit-shortcut")
+	case "C20":
+		foldNotEscapeConditioned(c, r, "C20.R4.fold-not-escape-conditioned")
 	}
 }
